@@ -18,7 +18,9 @@ import (
 
 	rconfig "github.com/metrico/cloki-config/config"
 	rmodel "github.com/metrico/qryn/reader/model"
+	rprof "github.com/metrico/qryn/reader/prof"
 	rservice "github.com/metrico/qryn/reader/service"
+	"google.golang.org/protobuf/proto"
 )
 
 type mergeDB struct {
@@ -235,4 +237,35 @@ func maxSelfProbe() (out string) {
 	t.SampleTypes = []string{typeName(0), typeName(1)}
 	t.MergeTrie([][]any{{uint64(0), uint64(1), uint64(2), int64(1), int64(1)}}, [][]any{{uint64(1), "f"}}, typeName(1))
 	return "Tree with two sample types merges the second type without panic"
+}
+
+// payloadMerge is an auxiliary observation outside the C16 statement (which speaks about the stored call TREE): the
+// stored pprof payloads of the same profiles merged by ProfileMergeV2 exactly as ProfService.MergeProfiles does.
+// Returns the per-type sums of the merged profile's sample values, or the panic it died with.
+func payloadMerge(sts []*storedProf) (sums []int64, failure string) {
+	defer func() {
+		if r := recover(); r != nil {
+			sums, failure = nil, fmt.Sprintf("panic: %v", r)
+		}
+	}()
+	m := rservice.NewProfileMergeV2()
+	for _, st := range sts {
+		var p rprof.Profile
+		if err := proto.Unmarshal([]byte(st.Payload), &p); err != nil {
+			return nil, "unmarshal: " + err.Error()
+		}
+		if err := m.Merge(&p); err != nil {
+			return nil, "merge: " + err.Error()
+		}
+	}
+	out := m.Profile()
+	sums = make([]int64, len(out.SampleType))
+	for _, s := range out.Sample {
+		for j, v := range s.Value {
+			if j < len(sums) {
+				sums[j] += v
+			}
+		}
+	}
+	return sums, ""
 }
